@@ -30,6 +30,7 @@ type Program struct {
 	Funcs   []*ssa.Function // every Helios source function incl. closures, sorted
 	inScope map[string]bool // import closure of cmd/helios
 	qual    bool            // Desc qualification toggle (see DescQ)
+	inline  bool            // Desc sees through single-return helper functions (used by C16)
 	locks   *LockInfo
 	fresh   *Fresh
 }
